@@ -742,10 +742,15 @@ def helper_module(rng):
     stmts = [['def hdouble(x):', '    return x * 2'],
              ['def hdiv(x):', '    return 100 // x'],
              ['def hshow(x):', "    print('helper', x)", '    return x + 1'],
-             ['HELPER_CONSTANT = %d' % rng.randint(1, 9)]]
+             ['HELPER_CONSTANT = %d' % rng.randint(1, 9)],
+             # module-level state changed through the module's own functions, and what the module knows about itself
+             ['hcount = 0'],
+             ['def hbump(x):', '    global hcount', '    hcount += x', '    return hcount'],
+             ['def hwho(x):', '    return len(__name__) + x'],
+             ['class HThing:', '    pass']]
     if rng.random() < 0.5:
         stmts.append(["print('helper loaded')"])
-    return stmts, ['hdouble', 'hdiv', 'hshow']
+    return stmts, ['hdouble', 'hdiv', 'hshow', 'hbump', 'hwho']
 
 
 DATA_FILE_TEXT = 'alpha\nbeta 2\n\ngamma  \nlast line without newline'
@@ -767,6 +772,8 @@ def gen_program(rng, size=None, allow_input=True, with_helper=False, planted_rai
     if with_helper and 'helper' not in g.imported:
         stmts.insert(0, ['import helper'])
         stmts.append(['print(helper.hdouble(%d))' % rng.randint(0, 5)])
+    if with_helper and 'helper' in g.imported and rng.random() < 0.6:
+        stmts.append(['print(helper.hbump(2), helper.hcount, helper.HThing.__module__, helper.hdouble.__module__, helper.__name__)'])
     files['answer.py'] = stmts
     return {'files': files, 'funcs': list(g.funcs), 'reads': g.reads}
 
